@@ -81,6 +81,10 @@ def gen_resize(repo, read):
     psrc, ptree = read(repo, "loky/process_executor.py")
     pw = ast.unparse(find_function(ptree, "_process_worker"))
     idle_exit_needs_lock = "if processes_management_lock.acquire(block=False):\n                processes_management_lock.release()" in pw
+    # the call queue of a resizable executor is sized from the host, not from the current number of workers (it is created once)
+    sq = [ast.unparse(x) for x in strip_docstring(find_function(tree, "_ReusablePoolExecutor._setup_queues").body)]
+    queue_sized_from_the_host = sq == ["queue_size = 2 * cpu_count() + EXTRA_QUEUED_CALLS",
+                                       "super()._setup_queues(job_reducers, result_reducers, queue_size=queue_size)"]
     b = lambda x: "true" if x else "false"  # noqa: E731
     text = "(* GENERATED by /verif/tr from /repo's working tree -- do not edit.  source: loky/reusable_executor.py, process_executor.py *)\n"
     text += "From Coq Require Import List Bool.\nFrom LokyV Require Import Lib.ResizeLib.\nImport ListNotations.\n"
@@ -88,4 +92,5 @@ def gen_resize(repo, read):
     text += f"Definition wait_job_completion_waits_until_nothing_is_pending : bool := {b(waits_until_empty)}.\n"
     text += f"Definition submit_is_excluded_during_resize : bool := {b(submit_excluded)}.\n"
     text += f"Definition idle_exit_gives_up_when_the_management_lock_is_taken : bool := {b(idle_exit_needs_lock)}.\n"
+    text += f"Definition call_queue_is_sized_from_the_host_cpu_count : bool := {b(queue_sized_from_the_host)}.\n"
     return text, {"program": prog, "facts": {"waits": waits_until_empty, "submit_excluded": submit_excluded, "idle_lock": idle_exit_needs_lock}}
